@@ -1126,3 +1126,49 @@ m('c08-evaluate-kernel', ['C08'],
 m('c03-revert-f9', ['C03'],
   (EE, "                    result[i] += np.squeeze(M0u0(t, x.reshape(2, 1)))",
    "                    result[i] += M0u0(t, x.reshape(2, 1))"), rule='R-scalar')
+
+# ---- refactoring twins: behaviour preserving; must never give exit 1 -------
+ALLP = ['C01', 'C02', 'C03', 'C04', 'C06', 'C07', 'C08', 'C09', 'C10', 'C11',
+        'C12', 'C14', 'C15', 'C16', 'C17', 'C18', 'C19', 'C20']
+
+
+def r(id, props, file, qual, old, new):
+    CORPUS.append(dict(id=id, props=list(props),
+                       edits=[('rename', file, qual, old, new)], rule=None,
+                       expect='noalarm'))
+
+
+r('ren-hh2-diff', ['C20', 'C03'], HH, 'HH2ErrorEstimator.estimate', 'diff', 'delta')
+r('ren-hh2-rhs', ['C20', 'C03'], HH, 'HH2ErrorEstimator.estimate', 'rhs', 'load')
+r('ren-hier-vphi', ['C20', 'C03'], HI, 'HierarchicalErrorEstimator.estimate', 'VPhi', 'V_phi')
+r('ren-hier-children', ['C20', 'C11'], HI, 'DummyElement.uniform_refinement', 'children', 'kids')
+r('ren-l2-res', ['C09'], EE, 'ErrorEstimator.weighted_l2', 'res_l2', 'rho')
+r('ren-bilform-gtime', ['C01', 'C12', 'C03', 'C04'], SL, 'SingleLayerOperator.bilform', 'G_time', 'kernel_t')
+r('ren-integrate-hx', ['C01', 'C11', 'C12'], SL, 'SingleLayerOperator.__integrate', 'h_x', 'len_x')
+r('ren-refine-child1', ['C02', 'C10'], M, 'Mesh.refine_axis', 'child1', 'first')
+r('ren-refine-edges', ['C02', 'C10'], M, 'Mesh.refine_axis', 'edges', 'sides')
+r('ren-sobolev-ips', ['C09', 'C17'], EE, 'ErrorEstimator.sobolev_space', 'ips', 'pairs')
+r('ren-evaluate-vec', ['C07', 'C03', 'C04'], SL, 'SingleLayerOperator.evaluate', 'vec', 'values')
+r('ren-evaluate-da', ['C07'], SL, 'SingleLayerOperator.evaluate', 'd_a', 'dist_a')
+r('ren-dorfler-cumsum', ['C06'], M, 'Mesh.dorfler_refine_isotropic', 'cumsum', 'acc')
+r('ren-dorfler-marked', ['C06', 'C02'], M, 'Mesh.dorfler_refine_anisotropic', 'marked_space', 'space_list')
+r('ren-grading-marked', ['C19', 'C02'], M, 'Mesh.refine_grading', 'marked_time', 'too_long')
+r('ren-slo-xysqr', ['C14', 'C09'], N, 'Slobodeckij.seminorm_h_1_2', 'xy_sqr', 'dist2')
+r('ren-slo-x', ['C14', 'C09'], N, 'Slobodeckij.__init__', 'gauss_x_leg_2d', 'tensor')
+r('ren-linform-val', ['C08'], IP, 'InitialOperator.linform', 'val', 'contribution')
+r('ren-linform-fx', ['C08'], IP, 'InitialOperator.linform', 'fx', 'values')
+r('ren-quad-fx', ['C15', 'C14'], Q, 'QuadScheme2D.integrate', 'fx', 'values')
+r('ren-duffy-xy', ['C15', 'C01'], Q, 'DuffyScheme2D.__init__', 'xy', 'prod')
+r('ren-mesh-e1', ['C02', 'C10'], M, 'Mesh.__init__', 'e1', 'bottom')
+r('ren-bdr-parent', ['C16', 'C08'], IM, 'InitialMesh.refine_msh_bdr', 'parent', 'container')
+r('ren-quad-children', ['C16'], IM, 'InitialMesh.refine', 'children', 'kids')
+r('ren-dtik-result', ['C01', 'C04', 'C12'], SL, 'double_time_integrated_kernel', 'result', 'total')
+r('ren-matrix-mat', ['C04', 'C17', 'C03'], SL, 'SingleLayerOperator.bilform_matrix', 'mat', 'matrix')
+r('ren-estimate-sobolev', ['C09', 'C17'], EE, 'ErrorEstimator.estimate_sobolev', 'sobolev', 'out')
+r('ren-residual-vphi', ['C03', 'C04'], EE, 'ErrorEstimator.residual', 'VPhi', 'acc')
+r('ren-main-rhs', ['C03'], EX, '<main>', 'rhs', 'load')
+r('ren-poly-gamma', ['C18', 'C01'], P, 'PiecewisePolygon.__init__', 'gamma', 'piece')
+r('ren-meshparam-leaves', ['C18', 'C02'], M, 'MeshParametrized.__init__', 'leaves', 'snapshot')
+r('ren-linformvec-vec', ['C17', 'C08'], IP, 'InitialOperator.linform_vector', 'vec', 'values')
+r('ren-fint2-val', ['C01'], SLX, 'fint_2', 'val', 'value')
+r('ren-se1-result', ['C07'], SLX, 'spacetime_evaluated_1', 'result', 'total')
